@@ -485,6 +485,22 @@ def run(ctx: Context, rep) -> None:
     check_rename(ctx, rep, "C06.rename")
     check_order(ctx, rep, "C06.order")
     check_closed(ctx, rep, "C06.closed")
+    # between the first closed shard of a continued session and the final
+    # description write, list files legitimately differ from the digests
+    # their parents record; a reader that verifies digests would refuse
+    # committed data of a crashed (or still running) writer
+    from sa.rules import common as C_
+    from sa.rules import shared
+    rep.rule(
+        "C06.reader-tolerant",
+        "no iteration entry point reaches hash_checksums: digests are "
+        "verified by check() only, never while reading")
+    shared.check_not_reachable(
+        ctx, rep, "C06.reader-tolerant",
+        ["sedpack.io.dataset_base:DatasetBase.shard_info_iterator",
+         C_.SHARD_PATHS] + list(C_.INTERFACES),
+        ["sedpack.io.utils:hash_checksums"], "hashes files")
+
 
 
 _U = "src/sedpack/io/utils.py"
